@@ -91,6 +91,86 @@ fn check_h2c(c: &H2cCase, info: &mut Info) -> Result<(), String> {
     Ok(())
 }
 
+// ---- related inputs evaluated back to back (a cache keyed by part of the input needs exactly this) ------
+
+#[derive(Clone, Debug, Serialize, Deserialize, PartialEq, Eq, Hash)]
+pub enum Variant {
+    Same,
+    OtherDst(BytesR),
+    OtherMsg(BytesR),
+    /// message extended by one byte
+    MsgPlus(u8),
+    /// destination tag extended by one byte (skipped when that would exceed 255 bytes)
+    DstPlus(u8),
+    OtherExpander(u8),
+    OtherMode,
+    OtherGroup,
+}
+
+#[derive(Clone, Debug, Serialize, Deserialize, PartialEq, Eq, Hash)]
+pub struct RelatedCase {
+    pub base: H2cCase,
+    pub variants: Vec<Variant>,
+}
+
+fn related_strategy() -> BoxedStrategy<RelatedCase> {
+    let v = prop_oneof![
+        2 => Just(Variant::Same),
+        3 => dst_strategy().prop_map(Variant::OtherDst),
+        3 => msg_strategy().prop_map(Variant::OtherMsg),
+        2 => any::<u8>().prop_map(Variant::MsgPlus),
+        2 => any::<u8>().prop_map(Variant::DstPlus),
+        2 => (0u8..4).prop_map(Variant::OtherExpander),
+        2 => Just(Variant::OtherMode),
+        1 => Just(Variant::OtherGroup),
+    ];
+    (prop_oneof![h2c_strategy(0), h2c_strategy(0), h2c_strategy(1)], proptest::collection::vec(v, 1..5)).prop_map(|(base, variants)| RelatedCase { base, variants }).boxed()
+}
+
+fn check_related(c: &RelatedCase, info: &mut Info) -> Result<(), String> {
+    let mut cur = c.base.clone();
+    let mut tmp = Info::default();
+    check_h2c(&cur, &mut tmp)?;
+    for v in &c.variants {
+        let mut next = cur.clone();
+        match v {
+            Variant::Same => {}
+            Variant::OtherDst(d) => next.dst = d.clone(),
+            Variant::OtherMsg(m) => next.msg = m.clone(),
+            Variant::MsgPlus(b) => {
+                let mut m = cur.msg.build();
+                m.push(*b);
+                next.msg = BytesR::Lit(m);
+            }
+            Variant::DstPlus(b) => {
+                let mut d = cur.dst.build();
+                if d.len() < 255 {
+                    d.push(*b);
+                }
+                next.dst = BytesR::Lit(d);
+            }
+            Variant::OtherExpander(e) => next.expander = *e,
+            Variant::OtherMode => next.ro = !cur.ro,
+            Variant::OtherGroup => next.group = 1 - cur.group % 2,
+        }
+        info.class(format!("then:{}", match v {
+            Variant::Same => "same-input-again",
+            Variant::OtherDst(_) => "same-msg-other-dst",
+            Variant::OtherMsg(_) => "same-dst-other-msg",
+            Variant::MsgPlus(_) => "msg-extended",
+            Variant::DstPlus(_) => "dst-extended",
+            Variant::OtherExpander(_) => "other-expander",
+            Variant::OtherMode => "other-mode",
+            Variant::OtherGroup => "other-group",
+        }));
+        let mut tmp = Info::default();
+        check_h2c(&next, &mut tmp).map_err(|m| format!("after hashing a related input first: {}", m))?;
+        cur = next;
+    }
+    info.nt();
+    Ok(())
+}
+
 // ---- the four RFC 9380 appendix-J vectors (independent of the model) ----------------------------
 
 fn kat_case(i: u64) -> Result<(), String> {
@@ -153,6 +233,7 @@ pub fn def() -> PropDef {
             Box::new(EnumSub { name: "rfc-vectors", rule: "RFC 9380 J.9.1 (msg \"\" and abc), J.9.2 (msg \"\"), J.10.1 (msg \"\") through the crate (enumerated)", run: run_kats, replay: replay_kats, exhaustive: true }),
             Box::new(Sub { name: "g1", rule: "G1 suites vs model pipeline", quick: 3_600, thorough: 40_000, strategy: || boxed(h2c_strategy(0)), check: check_h2c }),
             Box::new(Sub { name: "g2", rule: "G2 suites vs model pipeline", quick: 1_500, thorough: 15_000, strategy: || boxed(h2c_strategy(1)), check: check_h2c }),
+            Box::new(Sub { name: "related-inputs", rule: "a base input followed back to back by 1..4 related inputs (same msg / other dst, same dst / other msg, one byte appended, other expander, other mode, other group, same again), each compared with the model: the result depends only on (message, tag)", quick: 600, thorough: 15_000, strategy: || boxed(related_strategy()), check: check_related }),
         ],
         assumptions: {
             let mut v = COMMON_ASSUMPTIONS.to_vec();
